@@ -997,8 +997,23 @@ def _run_threaded(self: World, client_name: str) -> World:
         peer._send_some(None)
     conn, addr = self.accept_q.pop(0)
     work_klass = self.flags.work_klass
-    work = work_klass(work_klass.create(conn, addr), flags=self.flags, event_queue=self.make_event_queue(), upstream_conn_pool=None)
     self.executor = None
+    self.run_returned = False
+    try:
+        work = work_klass(work_klass.create(conn, addr), flags=self.flags, event_queue=self.make_event_queue(), upstream_conn_pool=None)
+    except Exception as e:
+        # what start_threaded_work() does happens in the acceptor: a work that cannot even be constructed means the accepted
+        # connection is dropped (the socket object goes away with the exception)
+        self.exceptions.append(('construct', '%s: %s' % (type(e).__name__, e)))
+        self.run_returned = True
+        self.run_raised = True
+        self.threaded_work = None
+        try:
+            socket.socket.close(conn)
+        except OSError:
+            pass
+        CURRENT = None
+        return self
     self.threaded_work = work
     work.selector = SteppingSelector(work.selector, self)
     self.run_returned = False
